@@ -29,7 +29,7 @@ BUDGET = {
 }
 TERMINALS = ['value', 'exception', 'cancel']
 CT_FNS = ['value', 'raise', 'gate-value', 'gate-raise', 'raise-cancelled', 'gate-raise-cancelled', 'raise-invalid', 'gate-raise-invalid', 'factory-raise']
-ADAPTERS = ['unwrap', 'plum2kiwi', 'rpc', 'convert', 'convert-async']
+ADAPTERS = ['unwrap', 'plum2kiwi', 'rpc', 'convert', 'convert-async', 'convert-filter', 'convert-filter-kw']
 
 
 def enumerate_cases(tier, scope):
@@ -55,6 +55,10 @@ def enumerate_cases(tier, scope):
     for fn in ('value', 'raise'):
         yield {'kind': 'rpc_plain', 'fn': fn}
         yield {'kind': 'rpc_plain', 'fn': fn, 'thread': True}
+    for intent in ('play', 'pause', 'kill', 'other'):
+        for paused in (False, True):
+            for by_keyword in (False, True):
+                yield {'kind': 'bcast_reply', 'intent': intent, 'paused': paused, 'by_keyword': by_keyword}
     ops = ['run', 'cancel', 'run']
     for n in range(1, 4):
         for seq in itertools.product(['run', 'cancel'], repeat=n):
@@ -131,6 +135,30 @@ def _run_chain(case, v):
                         await asyncio.sleep(0)
                         return levels[0]
                 adapted = futures.unwrap_kiwi_future(communications.convert_to_comm(subscriber, loop)(None, 'msg'))
+            elif adapter in ('convert-filter', 'convert-filter-kw'):
+                # a broadcast subscriber behind a BroadcastFilter (by subject, or by sender) that lets this broadcast
+                # through although its other field would not match the pattern: its answer is delivered like any other
+                levels = [loop.create_future() for _ in range(depth)]
+                heard = []
+
+                def subscriber(_comm, body, sender, subject, correlation_id):
+                    heard.append((body, sender, subject))
+                    return levels[0]
+
+                if depth % 2:
+                    filt = kiwipy.BroadcastFilter(subscriber, subject='state_changed.*')
+                else:
+                    filt = kiwipy.BroadcastFilter(subscriber, sender='proc-7')
+                converted = communications.convert_to_comm(filt, loop)
+                if adapter == 'convert-filter':
+                    out = converted(None, 'body', 'proc-7', 'state_changed.running.waiting', None)
+                else:
+                    out = converted(None, body='body', sender='proc-7', subject='state_changed.running.waiting', correlation_id=None)
+                # ... and one it does filter out is answered at once, without the subscriber being bothered
+                skipped = converted(None, 'body', 'proc-8', 'intent.kill', None)
+                if not (isinstance(skipped, kiwipy.Future) and skipped.done() and skipped.result() is None):
+                    v('filtered-broadcast-delivered', f'a broadcast that the filter rejects gave {skipped!r}')
+                adapted = futures.unwrap_kiwi_future(out)
             else:
                 levels = [loop.create_future() for _ in range(depth)]
                 proc = Process(pid=1, loop=loop)
@@ -158,6 +186,8 @@ def _run_chain(case, v):
                     early = (sorted(completed), _state(adapted)[0])
         loop.drain()
         got = _state(adapted)
+        if adapter.startswith('convert-filter') and heard != [('body', 'proc-7', 'state_changed.running.waiting')]:
+            v('filter-subscriber-calls', f'the subscriber behind the filter heard {heard}')
         if early is not None:
             v('resolved-early', f'adapter future was {early[1]} when only levels {early[0]} of {depth} had completed')
         if terminal == 'value':
@@ -390,6 +420,49 @@ def _run_rpc_plain(case, v):
         asyncio.set_event_loop(None)
 
 
+def _run_bcast_reply(case, v):
+    """A control intent that reaches the process as a broadcast is answered with a future for the outcome of the
+    request, like the same intent sent as an RPC (a communicator hands that future on to whoever sent the broadcast)."""
+    from plumpy import process_comms
+
+    loop = StepLoop()
+    asyncio.set_event_loop(loop)
+    try:
+        with loop.as_running():
+            proc = Process(pid=1, loop=loop)
+            if case.get('paused'):
+                proc.pause('before')
+            intent = {'play': process_comms.Intent.PLAY, 'pause': process_comms.Intent.PAUSE, 'kill': process_comms.Intent.KILL, 'other': 'state_changed.x.y'}[case['intent']]
+            body = {'message': 'because'} if case['intent'] in ('pause', 'kill') else None
+            if case.get('by_keyword'):
+                reply = proc.broadcast_receive(None, msg=body, sender='ctl', subject=intent, correlation_id=None)
+            else:
+                reply = proc.broadcast_receive(None, body, 'ctl', intent, None)
+        if case['intent'] == 'other':
+            if reply is not None:
+                v('unknown-broadcast-answered', f'a broadcast that is no control intent was answered with {reply!r}')
+        elif not isinstance(reply, kiwipy.Future):
+            v('broadcast-not-answered', f"the {case['intent']} intent received as a broadcast was answered with {reply!r}, not with a future for its outcome")
+        else:
+            if reply.done():
+                v('resolved-early', 'the reply was resolved before the request ran on the loop')
+            loop.drain()
+            got = _state(reply)
+            if got[0] != 'result' or got[1] is not True:
+                v('wrong-outcome', f"reply to the {case['intent']} broadcast is {got}, expected True")
+        loop.drain()
+        want = {'kill': 'killed'}.get(case['intent'], 'created')
+        if proc.state.value != want or (case['intent'] == 'pause' and not proc.paused) or (case['intent'] == 'play' and proc.paused):
+            v('intent-not-carried-out', f"after the {case['intent']} broadcast: state {proc.state.value}, paused={proc.paused}")
+        if case['intent'] == 'kill' and proc.killed_msg() is not None and proc.killed_msg().get('message') != 'because':
+            v('intent-text-lost', f'kill text {proc.killed_msg()!r}')
+    finally:
+        for task in loop.all_tasks:
+            task._log_destroy_pending = False
+        loop.shutdown()
+        asyncio.set_event_loop(None)
+
+
 def _run_action(case, v):
     loop = StepLoop()
     asyncio.set_event_loop(loop)
@@ -480,6 +553,10 @@ def execute(case):
         _run_rpc_plain(case, v)
         nontrivial = case['fn'] != 'value' or bool(case.get('thread'))
         classes = ['rpc_plain:' + case['fn'] + (':thread' if case.get('thread') else '')]
+    elif kind == 'bcast_reply':
+        _run_bcast_reply(case, v)
+        nontrivial = True
+        classes = ['bcast_reply:' + case['intent']]
     else:
         _run_action(case, v)
         nontrivial = len(case['ops']) >= 2
